@@ -322,7 +322,7 @@ static void classify_frame(Frame &f, const EndpointCfg &cfg) {
 	f.bad = !i.framed || !i.known_tag || (!i.has_error && !auth) || i.malformed_imprint;
 	// an error PDU is acted upon before authentication; it is not "bad data" but its own cause class
 	if (i.framed && i.known_tag && i.has_error && i.ver == cfg.pdu_ver) f.bad = false;
-	f.clean_resp = auth && i.has_resp && i.has_id && i.status == 0 && !i.has_error;
+	f.clean_resp = auth && i.has_resp && i.has_id && i.status == 0 && !i.has_error && !i.malformed_imprint; // (a PDU no client can parse is no valid reply)
 	f.authentic = auth;
 }
 
